@@ -499,6 +499,48 @@ def declared_type_cases():
     return out
 
 
+CHAIN_SHAPES = ("print \"init shapes\"\nexport made: int = 0\nexport class Box {\n  side: int\n  constructor(self, side: int) {\n    self.side = side\n  }\n  fn area(self) -> int {\n    return self.side * self.side\n  }\n}\n"
+                "export class Tag {\n  t: str\n  constructor(self, t: str) {\n    self.t = t\n  }\n}\n"
+                "export count_up: fn() -> int = fn() -> int {\n  modify made = made + 1\n  return made\n}\nexport limit: int = 9\n")
+CHAIN_FACTORY = ("print \"init factory\"\n%s"
+                 "export unit: fn() -> Box = fn() -> Box {\n  count_up()\n  return Box(1)\n}\nexport grow: fn(Box) -> Box = fn(b: Box) -> Box {\n  count_up()\n  return Box(b.side + 1)\n}\n"
+                 "export tag: fn() -> Tag = fn() -> Tag {\n  return Tag(\"t\" + limit)\n}\nexport label: str = \"factory\"\n")
+CHAIN_MAIN = "print \"main start\"\nimport factory\nimport shapes\nb = factory.grow(factory.unit())\nprint factory.label\nprint b.area()\nprint shapes.made\nprint factory.tag().t\n"
+
+
+def chain_cases():
+    """a middle module imports names from a third one -- in every order of class and non-class names, in one statement or
+    several -- and exports members whose declared types mention the imported classes: the importer sees all of them"""
+    import itertools
+    names = ["count_up", "Box", "Tag", "limit"]
+    out = []
+    for perm in itertools.permutations(names):
+        out.append(("one statement: " + ", ".join(perm), "import %s from shapes\n" % ", ".join(perm)))
+    out.append(("one statement per name", "".join("import %s from shapes\n" % n for n in names)))
+    out.append(("two statements, non-class names first", "import count_up, limit from shapes\nimport Box, Tag from shapes\n"))
+    out.append(("whole module plus names", "import shapes\nimport limit, Tag, count_up, Box from shapes\n"))
+    return [(cid, {"main.ms": CHAIN_MAIN, "factory.ms": CHAIN_FACTORY % imp, "shapes.ms": CHAIN_SHAPES}) for cid, imp in out]
+
+
+def run_chains(ctx, binary, base):
+    cases = chain_cases()
+    exp = ["main start", "init factory", "init shapes", "factory", "4", "2", "t9"]
+
+    def one(c):
+        d = programs.materialize({"files": c[1]}, base)
+        r = programs.run_bin(binary, ["run", "main.ms", "-q"], d)
+        shutil.rmtree(d, ignore_errors=True)
+        return r
+    for (cid, files), r in zip(cases, programs.pmap(one, cases)):
+        got = r[1].split("\n")[:-1]
+        if r[0] != 0 or got != exp:
+            why = [l.strip() for l in (r[1] + r[2]).splitlines() if l.strip().startswith("=")]
+            ctx.report("re-export-through-middle-module", "a module that imports `%s` and exports members typed with the imported classes: exit %d, printed %r %s, expected %r"
+                       % (cid, r[0], got[-4:], why[:1], exp), {"case": cid, "files": files, "expected": exp, "observed": got, "rc": r[0], "stderr": r[2][-500:], "how": "mscript run main.ms -q"})
+    ctx.cov["middle_module_import_order_cases"] = len(cases)
+    return len(cases)
+
+
 def run_function_imports_and_types(ctx, binary):
     base = ctx.mktemp()
     fcases = import_in_function_cases(ctx.rng, 42 if ctx.quick() else 420)
@@ -543,6 +585,7 @@ def run_function_imports_and_types(ctx, binary):
             ctx.report(cls, "an exported member used with its declared type (%s): exit %d, printed %r %s, expected %r" % (cid, r[0], got[-3:], why[:1], exp), replay)
     ctx.cov["import_in_function_body_cases"] = len(fcases)
     ctx.cov["declared_type_cases"] = len(tcases)
+    n += run_chains(ctx, binary, base)
     return n
 
 
